@@ -279,9 +279,15 @@ pub fn gen_lexeme(rng: &mut Rng) -> Lexeme {
             let k = SyntaxKind::from_char(c).unwrap();
             Lexeme { text: c.to_string(), expect: vec![(k, c.to_string())], sep: Sep::Any, safe_punct: !UNSAFE_PUNCT.contains(c) }
         }
-        15 => Lexeme { text: format!("// c{} */ \"", rng.below(100)), expect: vec![], sep: Sep::Line, safe_punct: false },
+        15 => Lexeme {
+            // (also with non-ASCII text: a comment's extent is measured in characters, its length in bytes)
+            text: if rng.below(3) == 0 { format!("// θ{} → φ by π (µs) */ \"", rng.below(100)) } else { format!("// c{} */ \"", rng.below(100)) },
+            expect: vec![],
+            sep: Sep::Line,
+            safe_punct: false,
+        },
         16 => {
-            let t = ["/* a */", "/* /* nested */ \" */", "/**/", "/* line\nbreak */"][rng.below(4) as usize];
+            let t = ["/* a */", "/* /* nested */ \" */", "/**/", "/* line\nbreak */", "/* é→ü ∀ε */"][rng.below(5) as usize];
             Lexeme { text: t.to_string(), expect: vec![], sep: Sep::Any, safe_punct: false }
         }
         17 => {
@@ -317,8 +323,8 @@ fn gen_sep(rng: &mut Rng, need_newline: bool, ws_only: bool, may_be_empty: bool)
             1 => s.push('\t'),
             2 => s.push('\n'),
             3 => s.push_str("  "),
-            4 => s.push_str("/* c */"),
-            _ => s.push_str("// c\n"),
+            4 => s.push_str(if rng.below(3) == 0 { "/* ç */" } else { "/* c */" }),
+            _ => s.push_str(if rng.below(3) == 0 { "// çé→\n" } else { "// c\n" }),
         }
     }
     s
